@@ -39,12 +39,25 @@ def _pdec(rng, lo_e=-6, hi_e=6, digits=4):
     return float(f"{rng.randint(1, 10 ** digits - 1)}e{rng.randint(lo_e, hi_e)}")
 
 
+import enum as _enum
+
+
+class _IE(_enum.IntEnum):
+    ONE = 1
+    TWO = 2
+
+
+class _SE(str, _enum.Enum):
+    A = "a"
+    B = "b"
+
+
 def gen_dist(rng):
     """-> (distribution, family tag) or None when the constructor legitimately refuses."""
     from optuna import distributions as D
 
     k = rng.choice(["f", "f", "fb", "f1ulp", "fsingle", "fl", "fl", "flnear1", "fs", "fs", "fs_nondiv", "fs_big",
-                    "fs_binstep", "i", "i", "is", "is_nondiv", "il", "isingle", "c", "c", "cnan",
+                    "fs_binstep", "i", "i", "is", "is_nondiv", "il", "isingle", "c", "c", "cnan", "csub",
                     "dep_u", "dep_lu", "dep_du", "dep_iu", "dep_ilu"])
     try:
         if k == "f":
@@ -102,6 +115,12 @@ def gen_dist(rng):
             pool = [None, True, False, 2, 3, -7, 3.5, -0.25, 1e100, "a", "b", "", "None", "1"]
             ch = rng.sample(pool, rng.randint(1, 7))
             # no two ==-equal choices of different type (True/1, 2/2.0): "one of the choices" is ambiguous there
+            return D.CategoricalDistribution(ch), k
+        if k == "csub":
+            # choices that are instances of SUBCLASSES of float / int / str (numpy scalars, IntEnum, str-mixin Enum): they are
+            # ==-equal to the builtin values every encoding turns them into
+            pool = [np.float64(0.5), np.float64(-2.25), np.float64(1e-3), _IE.ONE, _IE.TWO, _SE.A, _SE.B, np.int64(7) if False else 7, "z", None]
+            ch = rng.sample(pool, rng.randint(1, 6))
             return D.CategoricalDistribution(ch), k
         if k == "cnan":
             ch = rng.sample([None, "x", 1.5, 4], rng.randint(0, 3)) + [float("nan")]
